@@ -553,7 +553,7 @@ pub fn build(
                         "field `{name}` of type `{resolvee_path}` is located at 0x{last_address:X}, which is not divisible by {alignment} (the alignment of the type of the field)"
                     );
                 }
-                last_address += region.size(&semantic.type_registry).unwrap();
+                last_address = last_address.saturating_add(region.size(&semantic.type_registry).unwrap());
             }
         }
 
@@ -608,7 +608,7 @@ fn resolve_regions(
             }
 
             self.regions.push(region);
-            self.last_address += size;
+            self.last_address = self.last_address.checked_add(size)?;
             Some(())
         }
     }
@@ -689,7 +689,7 @@ fn resolve_regions(
     }
 
     // Find total size, and ensure that all regions have names
-    let mut size = 0;
+    let mut size = 0usize;
     for region in &mut resolved.regions {
         let Some(region_size) = region.size(&semantic.type_registry) else {
             return Ok(None);
@@ -712,7 +712,9 @@ fn resolve_regions(
             };
         }
 
-        size += region_size;
+        size = size
+            .checked_add(region_size)
+            .with_context(|| format!("size of type `{resolvee_path}` overflows"))?;
     }
 
     // Check that the final size is equal to the target size
